@@ -221,6 +221,67 @@ func c12AgreementCase(depth int, args map[string]any, desc string, knowledge str
 	return "", ""
 }
 
+// c12ParamsReuse: params values are data; a caller may hand the same value to several sessions.  One
+// client, one session on a stateless (2026-07-28) endpoint and one on a stateful (legacy) endpoint,
+// the same params value used on both, in either order: no request may be refused.
+func c12ParamsReuse(modernFirst bool, op string) (obs, sig, msg string) {
+	ctx := context.Background()
+	desc := fmt.Sprintf("op=%s modern-session-first=%v", op, modernFirst)
+	mkServer := func() *Server {
+		s := NewServer(&Implementation{Name: "srv", Version: "1"}, &ServerOptions{Logger: quietLogger})
+		AddTool(s, &Tool{Name: "t"}, func(ctx context.Context, r *CallToolRequest, in map[string]any) (*CallToolResult, any, error) {
+			return &CallToolResult{}, nil, nil
+		})
+		s.AddPrompt(&Prompt{Name: "p"}, func(context.Context, *GetPromptRequest) (*GetPromptResult, error) { return &GetPromptResult{}, nil })
+		s.AddResource(&Resource{URI: "file:///r", Name: "r"}, func(context.Context, *ReadResourceRequest) (*ReadResourceResult, error) {
+			return &ReadResourceResult{Contents: []*ResourceContents{{URI: "file:///r", Text: "x"}}}, nil
+		})
+		return s
+	}
+	client := NewClient(&Implementation{Name: "cli", Version: "1"}, &ClientOptions{Logger: quietLogger})
+	var sessions []*ClientSession
+	var hxs []*hxTransport
+	for _, stateless := range []bool{modernFirst, !modernFirst} {
+		s := mkServer()
+		h := NewStreamableHTTPHandler(func(*http.Request) *Server { return s }, &StreamableHTTPOptions{Stateless: stateless, Logger: quietLogger})
+		hx := &hxTransport{Handler: h}
+		cs, err := client.Connect(ctx, &StreamableClientTransport{Endpoint: "http://example.test/mcp", HTTPClient: hx.client(), MaxRetries: -1}, nil)
+		if err != nil {
+			return "", "c12 params-reuse connect", fmt.Sprintf("connect: %v [%s]", err, desc)
+		}
+		defer cs.Close()
+		sessions, hxs = append(sessions, cs), append(hxs, hx)
+	}
+	callParams := &CallToolParams{Name: "t", Arguments: map[string]any{}}
+	listParams := &ListToolsParams{}
+	promptParams := &GetPromptParams{Name: "p"}
+	readParams := &ReadResourceParams{URI: "file:///r"}
+	for i, cs := range sessions {
+		var err error
+		switch op {
+		case "CallTool":
+			_, err = cs.CallTool(ctx, callParams)
+		case "ListTools":
+			_, err = cs.ListTools(ctx, listParams)
+		case "GetPrompt":
+			_, err = cs.GetPrompt(ctx, promptParams)
+		case "ReadResource":
+			_, err = cs.ReadResource(ctx, readParams)
+		}
+		synctest.Wait()
+		version := cs.InitializeResult().ProtocolVersion
+		if err != nil {
+			return "", fmt.Sprintf("c12 params-reuse legitimate-request-refused %s", op), fmt.Sprintf("session %d (negotiated %s): ClientSession.%s with a params value that was used on the other session before: %v [%s]", i+1, version, op, err, desc)
+		}
+		for _, x := range hxs[i].exchanges() {
+			if x.Method == "POST" && x.Status >= 400 {
+				return "", fmt.Sprintf("c12 params-reuse legitimate-request-refused %s", op), fmt.Sprintf("session %d (negotiated %s): a POST produced by ClientSession.%s was answered %d (body %.200q) [%s]", i+1, version, op, x.Status, x.ReqBody, desc)
+			}
+		}
+	}
+	return "both sessions served", "", ""
+}
+
 // c12ClientOps: every message the SDK client's session API produces is accepted by the SDK's own HTTP
 // handlers: no POST is answered with a 4xx, and the session is still usable afterwards.
 func c12ClientOps(stateless bool, op string) (obs, sig, msg string) {
@@ -840,6 +901,29 @@ func TestVerifC12(t *testing.T) {
 				continue
 			}
 			cops.Record(idx, obs, 2, func() string { return fmt.Sprintf("stateless=%v op=%s", stateless, op) })
+		}
+	}
+	reuse := env.NewCases(res, "params-value-reused-across-sessions")
+	for _, modernFirst := range []bool{true, false} {
+		for _, op := range []string{"CallTool", "ListTools", "GetPrompt", "ReadResource"} {
+			idx, mine := reuse.Next()
+			if !mine {
+				continue
+			}
+			var obs, sig, msg string
+			func() {
+				defer func() {
+					if r := recover(); r != nil {
+						sig, msg = "c12 params-reuse panic-or-leak", fmt.Sprintf("%v [modernFirst=%v op=%s]", r, modernFirst, op)
+					}
+				}()
+				synctest.Test(t, func(t *testing.T) { obs, sig, msg = c12ParamsReuse(modernFirst, op) })
+			}()
+			if sig != "" {
+				reuse.Violate(idx, sig, msg, 2)
+				continue
+			}
+			reuse.Record(idx, obs, 2, func() string { return fmt.Sprintf("modernFirst=%v op=%s", modernFirst, op) })
 		}
 	}
 	env.Finish(res)
